@@ -8,6 +8,11 @@ M=[
 ("C03_afterval_space_only","parser.go","\t\tcase stateAfterVal:\n\n\t\t\t// Whitespace (skipping)\n\t\t\tif unicode.IsSpace(char) {","\t\tcase stateAfterVal:\n\n\t\t\t// Whitespace (skipping)\n\t\t\tif char == ' ' {"),
 ("C05_insert_cap","list_impl.go","if index < 0 || index > ego.Ego().Count() {\n\t\tpanic(fmt.Sprintf(\"index %d out of range with count %d\", index, ego.Ego().Count()))\n\t}\n\tif index == ego","if index < 0 || index > cap(ego.val) {\n\t\tpanic(fmt.Sprintf(\"index %d out of range with count %d\", index, ego.Ego().Count()))\n\t}\n\tif index == ego"),
 ("C05_delete_offbyone","list_impl.go","\t\tindex := indexes[i]\n\t\tif index < 0 || index >= ego.Ego().Count() {","\t\tindex := indexes[i]\n\t\tif index < 0 || index > ego.Ego().Count() {"),
+("C05_insert_shift_short","list_impl.go","\tego.val = append(ego.val[:index+1], ego.val[index:]...)","\tego.val = append(ego.val[:index], ego.val[index:]...)"),
+("C05_add_prepends","list_impl.go","\t\tego.val = append(ego.val, parseVal(val))","\t\tego.val = append([]field{parseVal(val)}, ego.val...)"),
+("C05_delete_keeps_wrong","list_impl.go","\t\tego.val = append(ego.val[:index], ego.val[index+1:]...)","\t\tego.val = append(ego.val[:index], ego.val[index:]...)[:len(ego.val)-1]"),
+("C05_concat_twice_other","list_impl.go","\tnewList.val = append(newList.val, ego.val...)","\tnewList.val = append(newList.val, other.val...)"),
+("C05_listof_convert_in_loop","list_impl.go","\telem := parseVal(value)\n\tfor i := 0; i < count; i++ {\n\t\tego.val = append(ego.val, elem)","\tfor i := 0; i < count; i++ {\n\t\tego.val = append(ego.val, parseVal(value))"),
 ("C06_merge_prefers_receiver","object_impl.go","\tresult := ego.Clone()\n\tanother.ForEach(func(key string, val any) {","\tresult := another.Clone()\n\tego.ForEach(func(key string, val any) {"),
 ("C06_pluck_skips_missing","object_impl.go","\t\tresult.Set(key, ego.Get(key))","\t\tif ego.KeyExists(key) {\n\t\t\tresult.Set(key, ego.Get(key))\n\t\t}"),
 ("C07_object_no_count","object_impl.go","if !ok || ego.Ego().Count() != obj.Count() {\n\t\treturn false\n\t}\n\tfor k := range ego.val","if !ok {\n\t\treturn false\n\t}\n\tfor k := range ego.val"),
